@@ -22,7 +22,7 @@ def main():
     d = os.path.abspath(sys.argv[1])
     props = sys.argv[2:]
     meta = json.load(open(os.path.join(d, 'meta.json')))
-    props = props or [meta['property']]
+    props = props or [meta['property'][:3]]
     scratch = tempfile.mkdtemp(prefix='verif-vet-')
     copy = os.path.join(scratch, 'repo')
     res = {'dir': d}
